@@ -34,6 +34,7 @@ CONSTANTS
     AllowDisabled, AllowSeeded, AllowOutOfGraph, AllowIgnore,   \* BOOLEAN switches
     SSSet,          \* values of Broker.store_skips explored
     ModeSet,        \* "single", "incr", "pool"
+    ArchSet,        \* values explored for "the broker holds a SerializedArchiveContext" (dr.run prunes the graph)
     Workers         \* pool size in mode "pool"
 
 VARIABLES
@@ -41,6 +42,7 @@ VARIABLES
     prog,       \* Seq of component definitions, prog[c] for c \in 1..Len(prog)
     ss,         \* Broker.store_skips
     mode,       \* driver
+    arch,       \* the broker holds a SerializedArchiveContext: analysis of a collected archive
     subs,       \* Seq of sets of components: the sub-graphs, in dispatch order
     nextSub,    \* next sub-graph to hand out
     cur,        \* [1..W -> 0..Len(subs)] sub-graph a worker is evaluating (0 = idle)
@@ -50,7 +52,7 @@ VARIABLES
     att,        \* Seq of [w, c]      loop iterations so far, in order
     calls       \* Seq of [c, args, el]  body invocations so far, in order
 
-vars == <<phase, prog, ss, mode, subs, nextSub, cur, inst, missing, excs, att, calls>>
+vars == <<phase, prog, ss, mode, arch, subs, nextSub, cur, inst, missing, excs, att, calls>>
 
 Comp    == 1..N
 Low(c)  == 1..(c - 1)
@@ -114,7 +116,14 @@ MayFileUnder(c) == {c} \cup DownPts(c) \cup UpPts(c)
 (* A seeded component is never run, so its otherwise unused outcome field    *)
 (* chooses what it is seeded with: a value, or None (present, but None).     *)
 SeedVal(c) == IF prog[c].outc = "none" THEN NoneV ELSE SeedV(c)
-Graph  == {c \in Defined : prog[c].ingraph}
+(* The evaluated graph.  When the broker holds a SerializedArchiveContext,    *)
+(* dr.run (dr.py:1121-1129) drops the direct dependencies of every component *)
+(* that is already in the broker: what was loaded from the archive is not    *)
+(* collected again.                                                          *)
+Flagged == {c \in Defined : prog[c].ingraph}
+Loaded  == {c \in Defined : prog[c].seeded}
+Pruned  == Flagged \ UNION {{prog[c].flat[i] : i \in DOMAIN prog[c].flat} : c \in Flagged \cap Loaded}
+Graph   == IF arch THEN Pruned ELSE Flagged
 (* dr.get_dependency_graph / determine_components: when the caller names      *)
 (* targets instead of handing over a graph, the evaluated graph is their      *)
 (* dependency closure.                                                        *)
@@ -144,7 +153,7 @@ DefineWith(k, o, d, en, sd, ig, coe, ign, eo) ==
     /\ prog' = Append(prog, [kind |-> k, decl |-> d, req |-> ReqOf(d), grp |-> GrpOf(d), flat |-> FlatSeq(d),
                              outc |-> o, eouts |-> eo, coe |-> coe,
                              enabled |-> en, seeded |-> sd, ingraph |-> ig, target |-> ig, ignore |-> ign])
-    /\ UNCHANGED <<phase, ss, mode, subs, nextSub, cur, inst, missing, excs, att, calls>>
+    /\ UNCHANGED <<phase, ss, mode, arch, subs, nextSub, cur, inst, missing, excs, att, calls>>
 
 ListFed(k, d) == k = "parser" /\ MayBeList(d[1].ds[1])
 
@@ -180,9 +189,10 @@ StartRun ==
     /\ phase' = "run"
     /\ ss' \in SSSet
     /\ mode' \in ModeSet
+    /\ arch' \in (IF mode' = "single" THEN ArchSet ELSE {FALSE})
     /\ IF mode' = "single"
-         THEN subs' = <<Graph>>
-         ELSE subs' \in PermSeqs(ConnComps(Graph))
+         THEN subs' = <<IF arch' THEN Pruned ELSE Flagged>>
+         ELSE subs' \in PermSeqs(ConnComps(Flagged))
     /\ nextSub' = 1
     /\ cur' = [w \in 1..(IF mode' = "pool" THEN Workers ELSE 1) |-> 0]
     /\ inst' = [c \in Comp |-> IF prog[c].seeded THEN SeedVal(c) ELSE Absent]
@@ -201,7 +211,7 @@ Take(w) ==
     /\ IF cur[w] = 0 THEN TRUE ELSE SubAll(cur[w]) \subseteq AttemptedIn(cur[w])
     /\ cur' = [cur EXCEPT ![w] = nextSub]
     /\ nextSub' = nextSub + 1
-    /\ UNCHANGED <<phase, prog, ss, mode, subs, inst, missing, excs, att, calls>>
+    /\ UNCHANGED <<phase, prog, ss, mode, arch, subs, inst, missing, excs, att, calls>>
 
 ---------------------------------------------------------------------------
 (* Effect of one loop iteration on component c, as a function of the       *)
@@ -295,19 +305,19 @@ Attempt(w, c) ==
          /\ calls'   = calls \o e.calls
          /\ excs'    = excs \cup e.excs
     /\ att' = Append(att, [w |-> w, s |-> cur[w], c |-> c])
-    /\ UNCHANGED <<phase, prog, ss, mode, subs, nextSub, cur>>
+    /\ UNCHANGED <<phase, prog, ss, mode, arch, subs, nextSub, cur>>
 
 AllDone == nextSub > Len(subs) /\ \A i \in DOMAIN subs : SubAll(i) \subseteq AttemptedIn(i)
 
 Finish ==
     /\ phase = "run" /\ AllDone
     /\ phase' = "done"
-    /\ UNCHANGED <<prog, ss, mode, subs, nextSub, cur, inst, missing, excs, att, calls>>
+    /\ UNCHANGED <<prog, ss, mode, arch, subs, nextSub, cur, inst, missing, excs, att, calls>>
 
 Next == Define \/ StartRun \/ (\E w \in DOMAIN cur : Take(w) \/ \E c \in Comp : Attempt(w, c)) \/ Finish
 
 Init ==
-    /\ phase = "define" /\ prog = <<>> /\ ss = FALSE /\ mode = "single"
+    /\ phase = "define" /\ prog = <<>> /\ ss = FALSE /\ mode = "single" /\ arch = FALSE
     /\ subs = <<>> /\ nextSub = 1 /\ cur = <<>>
     /\ inst = <<>> /\ missing = <<>> /\ excs = {} /\ att = <<>> /\ calls = <<>>
 
